@@ -78,26 +78,34 @@ fn same(a: Obs, b: Obs) -> bool {
         && a.w[4] == b.w[4]
 }
 
+/// Observe a result and forget it: results are not dropped (memory management is C17's business, groups
+/// int_buffer / int_repr); a result whose inline/heap class is symbolic makes `drop` a `free` of a pointer made
+/// of the inline words under an infeasible guard, which CBMC still has to encode against every live object.
+macro_rules! ob {
+    ($obs:ident, $e:expr) => {{
+        let t = core::mem::ManuallyDrop::new($e);
+        $obs(&t)
+    }};
+}
 /// Owned / borrowed / assign forms of a binary operator against the ref-ref form; the operands are rebuilt
 /// from the same words for every form (A, B are expressions) and every result is observed once.
-/// Split in two halves (CBMC's cost grows much faster than linearly with the number of live big integers).
 macro_rules! forms_val {
     ($obs:ident, $A:expr, $B:expr, $op:tt) => {{
-        let r = $obs(&(&$A $op &$B));
-        assert!(same($obs(&($A $op $B)), r));
-        assert!(same($obs(&($A $op &$B)), r));
-        assert!(same($obs(&(&$A $op $B)), r));
+        let r = ob!($obs, &$A $op &$B);
+        assert!(same(ob!($obs, $A $op $B), r));
+        assert!(same(ob!($obs, $A $op &$B), r));
+        assert!(same(ob!($obs, &$A $op $B), r));
     }};
 }
 macro_rules! forms_assign {
     ($obs:ident, $A:expr, $B:expr, $op:tt, $opa:tt) => {{
-        let r = $obs(&(&$A $op &$B));
+        let r = ob!($obs, &$A $op &$B);
         let mut x = $A;
         x $opa $B;
-        assert!(same($obs(&x), r));
+        assert!(same(ob!($obs, x), r));
         let mut y = $A;
         y $opa &$B;
-        assert!(same($obs(&y), r));
+        assert!(same(ob!($obs, y), r));
     }};
 }
 
